@@ -237,6 +237,8 @@ pub struct Fault {
     pub bytes: Vec<u8>,
     /// the connection ends after these bytes
     pub eof: bool,
+    /// what the terminal sends right behind the faulty bytes (e.g. it carries on with the regular script)
+    pub followed_by: Vec<u8>,
 }
 
 pub struct Observed {
@@ -252,6 +254,9 @@ impl<'a> Exchange<'a> {
         let mut gate = cmd_len;
         if let Some(f) = self.fault.as_ref().filter(|f| f.at_ack) {
             entries.push(Entry { bytes: f.bytes.clone(), gate });
+            if !f.followed_by.is_empty() {
+                entries.push(Entry { bytes: f.followed_by.clone(), gate });
+            }
         } else {
             entries.push(Entry { bytes: self.ack.clone(), gate });
             for (i, r) in self.replies.iter().enumerate() {
@@ -263,6 +268,9 @@ impl<'a> Exchange<'a> {
             }
             if let Some(f) = &self.fault {
                 entries.push(Entry { bytes: f.bytes.clone(), gate });
+                if !f.followed_by.is_empty() {
+                    entries.push(Entry { bytes: f.followed_by.clone(), gate });
+                }
             }
         }
         if !self.junk.is_empty() {
@@ -296,7 +304,7 @@ impl<'a> Exchange<'a> {
             "command": hex(&self.cmd_bytes),
             "script": self.replies.iter().map(|r| json!({"variant": r.variant, "bytes": if r.bytes.len() <= 64 { hex(&r.bytes) } else { format!("{} bytes", r.bytes.len()) }})).collect::<Vec<_>>(),
             "final_at": self.final_at,
-            "fault": self.fault.as_ref().map(|f| json!({"kind": f.kind, "at_ack": f.at_ack, "bytes": hex(&f.bytes), "then_eof": f.eof})),
+            "fault": self.fault.as_ref().map(|f| json!({"kind": f.kind, "at_ack": f.at_ack, "bytes": hex(&f.bytes), "then_eof": f.eof, "followed_by": hex(&f.followed_by)})),
             "junk": hex(&self.junk),
             "chunking": format!("{:?}", self.chunking),
             "pending_between_chunks": self.pend_between,
@@ -929,7 +937,7 @@ fn malformed(schema: &Schema, pools: &Pools, rng: &mut Rng, key: &str) -> Option
 pub fn run_c06(ctx: &Ctx) -> i32 {
     let mut report = ctx.report("C06", "fault_enumeration");
     let depth = ctx.by(4usize, 6usize);
-    report.rule = format!("18 streams x every valid prefix of non-final replies of length <= {depth} x fault kinds {{NACK 84xx in place of a packet, control field outside the reply set, malformed body for a control field inside the set (rejected by the reference decoder as incomplete/duplicate/missing), packet truncated at every offset followed by end of stream, clean end of stream at the packet boundary}} at every position (the acknowledgement position included), chunking whole / byte-wise. Oracle over the event log: the valid prefix is processed exactly as in C05; after the first faulty byte was delivered there is no write at all, exactly one Err item, then End (no parking). Non-trivial = every fault scenario; distinct by hash of (stream, prefix bytes, fault bytes, position, chunking).");
+    report.rule = format!("18 streams x every valid prefix of non-final replies of length <= {depth} x fault kinds {{NACK 84xx in place of a packet (all 256 codes at the acknowledgement position), the same followed by the regular script (a terminal that did not notice), control field outside the reply set, malformed body for a control field inside the set (rejected by the reference decoder as incomplete/duplicate/missing), packet truncated at every offset followed by end of stream, clean end of stream at the packet boundary}} at every position (the acknowledgement position included), chunking whole / byte-wise. Oracle over the event log: the valid prefix is processed exactly as in C05; after the first faulty byte was delivered there is no write at all, exactly one Err item, then End (no parking). Non-trivial = every fault scenario; distinct by hash of (stream, prefix bytes, fault bytes, position, chunking).");
     report.exhaustive = Some(true);
     report.assumptions = vec!["malformed bodies are restricted to those whose rejection follows from C02/C13 (top-level duplicate tag, value cut short, missing positional field)".into()];
     let schema = refcodec::zvt_schema();
@@ -975,7 +983,7 @@ pub fn run_c06(ctx: &Ctx) -> i32 {
                 let positions: Vec<bool> = if prefix.is_empty() { vec![true, false] } else { vec![false] };
                 for at_ack in positions {
                     let whole: Vec<u8> = if at_ack { ACK.to_vec() } else { next.bytes.clone() };
-                    faults.push(Fault { kind: "nack", at_ack, bytes: vec![0x84, rng.byte(), 0x00], eof: false });
+                    faults.push(Fault { kind: "nack", at_ack, bytes: vec![0x84, rng.byte(), 0x00], eof: false, followed_by: vec![] });
                     // foreign control field: a valid packet of a type outside the reply set
                     let foreign_key = loop {
                         let k = *rng.pick(&["packets::Registration", "packets::SetTimeAndDate", "packets::ReadCard", "packets::EndOfDay", "feig::packets::WriteFile", "packets::Authorization"]);
@@ -984,15 +992,27 @@ pub fn run_c06(ctx: &Ctx) -> i32 {
                             break k;
                         }
                     };
-                    faults.push(Fault { kind: "foreign-control-field", at_ack, bytes: pools.pick(&mut rng, foreign_key).0.clone(), eof: false });
+                    faults.push(Fault { kind: "foreign-control-field", at_ack, bytes: pools.pick(&mut rng, foreign_key).0.clone(), eof: false, followed_by: vec![] });
+                    // the terminal carries on with the regular script behind the faulty packet (it did not notice):
+                    // an acknowledgement and a valid final reply are queued right behind
+                    let mut carry_on = ACK.to_vec();
+                    carry_on.extend(next.bytes.iter());
+                    faults.push(Fault { kind: "nack-then-regular-script", at_ack, bytes: vec![0x84, rng.byte(), 0x00], eof: false, followed_by: carry_on.clone() });
+                    faults.push(Fault { kind: "foreign-then-regular-script", at_ack, bytes: pools.pick(&mut rng, foreign_key).0.clone(), eof: false, followed_by: carry_on.clone() });
+                    // every negative-acknowledgement code 84 xx at the acknowledgement position (and sampled elsewhere)
+                    if at_ack && prefix.is_empty() {
+                        for code in 0..=255u8 {
+                            faults.push(Fault { kind: "nack-code-sweep", at_ack, bytes: vec![0x84, code, 0x00], eof: false, followed_by: if code % 2 == 0 { vec![] } else { carry_on.clone() } });
+                        }
+                    }
                     if !at_ack {
                         let v = *rng.pick(&e.variants.iter().map(|v| v.1).collect::<Vec<_>>());
                         if let Some(b) = malformed(&schema, &pools, &mut rng, v) {
-                            faults.push(Fault { kind: "malformed-body", at_ack, bytes: b, eof: false });
+                            faults.push(Fault { kind: "malformed-body", at_ack, bytes: b, eof: false, followed_by: vec![] });
                         }
                     }
                     for cut in 0..whole.len() {
-                        faults.push(Fault { kind: if cut == 0 { "eof-at-boundary" } else { "truncated" }, at_ack, bytes: whole[..cut].to_vec(), eof: true });
+                        faults.push(Fault { kind: if cut == 0 { "eof-at-boundary" } else { "truncated" }, at_ack, bytes: whole[..cut].to_vec(), eof: true, followed_by: vec![] });
                     }
                 }
                 for f in faults {
